@@ -1117,7 +1117,7 @@ def render_rust(ex):
     o.append("    match k {")
     for k, f in pub:
         h = HANDLER_FNS[f["handler"]]
-        o.append(f"        {k} => {{ idt.{f['name']}.set_handler_fn({h}); Some({h} as usize as u64) }}")
+        o.append(f"        {k} => {{ idt.{f['name']}.set_handler_fn({h}); Some({h} as *const () as usize as u64) }}")
     o.append("        _ => None,")
     o.append("    }")
     o.append("}")
